@@ -506,6 +506,109 @@ def _template_damage(draw):
 hist_st = st.one_of(_free_hist_st, _free_hist_st, _free_hist_st, _template_hist(), _template_concurrent(), _template_damage())
 
 
+# ---- stack-budget arm --------------------------------------------------------------------------------------------------------------
+# Whether the instrumenting pass can walk a deeply nested module depends on the interpreter's stack budget of THAT run, which is not part of
+# the cache key.  Runs over one cache directory differ in sys.setrecursionlimit; a run may fail to import the module (RecursionError: nothing
+# is loaded, nothing to compare), but a module that IS loaded under a hook must be the instrumented one with this run's typechecker.
+DEEP_SPY = """
+import typeguard
+log = []
+def _mk(tag):
+    def checker(fn, *a, **k):
+        log.append((tag, fn.__module__, fn.__qualname__))
+        return typeguard.typechecked(fn)
+    return checker
+a = _mk("a")
+b = _mk("b")
+"""
+
+DEEP_RUNNER = r"""
+import json, sys
+spec = json.loads(sys.argv[1])
+sys.path.insert(0, spec["dir"])
+import jaxtyping
+from jaxtyping import install_import_hook
+import vf_spy18d
+if spec["checker"] != "plain":
+    install_import_hook(["pdeep"], "vf_spy18d." + spec["checker"])
+sys.setrecursionlimit(spec["limit"])
+try:
+    import pdeep
+except RecursionError:
+    sys.setrecursionlimit(100000)
+    print("VF18" + json.dumps({"loaded": False})); sys.exit(0)
+sys.setrecursionlimit(100000)
+tags = sorted({t for (t, mm, q) in vf_spy18d.log if mm == "pdeep"})
+try:
+    pdeep.f("not-an-int"); raises = False
+except jaxtyping.TypeCheckError:
+    raises = True
+print("VF18" + json.dumps({"loaded": True, "import": "jaxtyping" in vars(pdeep), "wrapped": hasattr(pdeep.f, "__wrapped__"), "tags": tags, "raises": raises, "g": pdeep.g(1)}))
+"""
+
+
+def deep_source(n):
+    return ("def f(x: int):\n    return 1\ndef g(k):\n    if k == 0:\n        return 0\n"
+            + "".join(f"    elif k == {i}:\n        return {i}\n" for i in range(1, n)))
+
+
+def _deep_run(d, run):
+    env = dict(os.environ)
+    env.pop("PYTHONDONTWRITEBYTECODE", None)
+    r = subprocess.run([sys.executable, "-W", "ignore", "-c", DEEP_RUNNER, json.dumps({"dir": d, "checker": run["checker"], "limit": run["limit"]})],
+                       capture_output=True, text=True, env=env, timeout=300)
+    line = [l for l in r.stdout.splitlines() if l.startswith("VF18")]
+    if not line:
+        return {"error": (r.stderr or r.stdout)[-600:]}
+    return json.loads(line[0][4:])
+
+
+def check_deep(ctx, case):
+    d = tempfile.mkdtemp(prefix="vf-c18d-")
+    try:
+        with open(os.path.join(d, "vf_spy18d.py"), "w") as f:
+            f.write(DEEP_SPY)
+        with open(os.path.join(d, "pdeep.py"), "w") as f:
+            f.write(deep_source(case["depth"]))
+        os.utime(os.path.join(d, "pdeep.py"), (1_600_000_000, 1_600_000_000))
+        outcomes = []
+        for ri, run in enumerate(case["deep"]):
+            got = _deep_run(d, run)
+            if "error" in got:
+                raise RuntimeError(f"C18 stack-budget arm: run #{ri} {run} broke down: {got['error']}")
+            outcomes.append(got.get("loaded"))
+            if not got["loaded"]:
+                continue
+            want = None if run["checker"] == "plain" else run["checker"]
+            cls = classify(got)
+            if cls != want:
+                # differential confirmation: the identical run over an EMPTY cache.  A tree that treats a too-deep module uniformly (whatever it
+                # does with it) is not history-dependent and is not reported by this arm.
+                d2 = tempfile.mkdtemp(prefix="vf-c18d2-")
+                try:
+                    for fn in ("vf_spy18d.py", "pdeep.py"):
+                        shutil.copy2(os.path.join(d, fn), os.path.join(d2, fn))
+                    twin = _deep_run(d2, run)
+                finally:
+                    shutil.rmtree(d2, ignore_errors=True)
+                if "error" in twin:
+                    raise RuntimeError(f"C18 stack-budget arm: twin of run #{ri} {run} broke down: {twin['error']}")
+                if not twin["loaded"] or classify(twin) == cls:
+                    continue
+                raise Violation("stale-instrumentation", case, f"stack-budget run #{ri} {run} over the cache left by runs {case['deep'][:ri]} (loaded: {outcomes[:ri]}): "
+                                f"pdeep is {cls!r}, the current configuration calls for {want!r} and the same run over an empty cache gives {classify(twin)!r}")
+        mixed = True in outcomes and False in outcomes
+        ctx.note([case, "stack-budget"], mixed or (outcomes.count(True) >= 2 and len({r["checker"] for r in case["deep"]}) >= 2),
+                 classes=["stack-budget-arm"] + (["stack-budget-some-run-could-not-import"] if mixed else []) + [f"stack-budget-loaded-{outcomes.count(True)}-of-{len(outcomes)}"],
+                 sample={"depth": case["depth"], "runs": case["deep"], "loaded": outcomes})
+    finally:
+        shutil.rmtree(d, ignore_errors=True)
+
+
+deep_run_st = st.fixed_dictionaries({"checker": st.sampled_from(["a", "b", "a", "plain"]), "limit": st.sampled_from([400, 5000, 1000, 250, 20000])})
+deep_st = st.fixed_dictionaries({"depth": st.sampled_from([600, 300, 900, 150]), "deep": st.lists(deep_run_st, min_size=2, max_size=3)})
+
+
 def run(ctx):
     if ctx.tier == "thorough":
         @given(hist_st)
@@ -526,8 +629,20 @@ def run(ctx):
 
         ctx.hyp(sub_histories_q, max_examples=ctx.n(5, 5), shrink=False)
 
+    @given(deep_st)
+    def stack_budget(case):
+        check_deep(ctx, case)
+
+    ctx.hyp(stack_budget, max_examples=ctx.n(5, 30), shrink=False)
+
 
 def replay(case, clause, ctx):
+    if "deep" in case:
+        try:
+            check_deep(ctx, case)
+        except Violation as v:
+            return str(v)
+        return None
     msgs = []
     for mode in ("inprocess", "subprocess"):
         try:
